@@ -22,11 +22,21 @@ def main():
         if j is None:
             res.append(None)
             continue
+        forget_builtins(j)
         try:
             res.append(run_job(j))
         except Exception as e:
             res.append({"exc": type(e).__name__ + ": " + str(e)[:200]})
+        finally:
+            forget_builtins(j)
     _boot.write_result({"res": res})
+
+
+def forget_builtins(j):
+    import builtins
+    from zope.interface.declarations import BuiltinImplementationSpecifications
+    for name in j.get("builtin", []):
+        BuiltinImplementationSpecifications.pop(getattr(builtins, name), None)
 
 
 def run_job(j):
